@@ -971,7 +971,9 @@ func (g *gen) runGenerated2(c *Case2, uniq *int64) {
 		//            seq: the next push arrives after the one before was stored, answered and confirmed (its series row is left out);
 		//            inflight: it arrives while the one before waits for its INSERTs (both carry the row);
 		//            failfirst: the INSERT of the first push's series row fails for good (error answer, nothing confirmed), the next carries the row again
-		class = "repeat " + []string{"seq", "inflight", "failfirst"}[(c.ID/10+int(g.seed%3)+3)%3]
+		//            inflightfail (round 8, seeded C01-h): as inflight -- all pushes wait in the SAME time_series batch, each carrying the row --, and the
+		//                      INSERT of that batch (and of every retry) fails until every push is answered: each of them must get the error
+		class = "repeat " + []string{"seq", "inflight", "failfirst", "inflightfail"}[(c.ID/10+int(g.seed%4)+4)%4]
 		c.Attempts = 1 + r.Intn(3)
 		c.Repeat = true
 	}
@@ -1063,7 +1065,7 @@ func (g *gen) runGenerated2(c *Case2, uniq *int64) {
 				}
 			}
 		}
-	case "repeat seq", "repeat inflight", "repeat failfirst":
+	case "repeat seq", "repeat inflight", "repeat failfirst", "repeat inflightfail":
 		nops = r.Intn(5)
 		tag := fmt.Sprintf("c%drep", c.ID)
 		repReq := func() {
@@ -1100,6 +1102,22 @@ func (g *gen) runGenerated2(c *Case2, uniq *int64) {
 					for round := 0; round < 6 && answers < len(c.Reqs) && rn.b.trouble == ""; round++ {
 						flush(gSeries, false)
 						flush(gSamples, true)
+					}
+				}
+			case "repeat inflightfail":
+				if k == npush-1 {
+					// every push of the script is queued in the open time_series batch; the samples are stored, the series INSERTs are refused
+					// (one error text per script) until the retries of every push are used up
+					et := r.Intn(len(errTexts))
+					for round := 0; round < 8 && answers < len(c.Reqs) && rn.b.trouble == ""; round++ {
+						flush(gSamples, true)
+						step(Op2{T: "plan", S: gSeries})
+						if _, bf := state(gSeries); bf {
+							step(Op2{T: "send", S: gSeries})
+						}
+						if fl, _ := state(gSeries); fl {
+							step(Op2{T: "ret", S: gSeries, Ok: false, E: et})
+						}
 					}
 				}
 			}
